@@ -148,3 +148,26 @@ Theorem C12_messages_async_eq : forall p fuel tys l rcx,
   end.
 Proof. exact messages_async_outcome. Qed.
 Print Assumptions C12_messages_async_eq.
+
+(* ---- delivery schedules (Thrift/AsyncEv.v, Proofs/AsyncEvP.v) ----
+   Above, a stream is the byte string it delivers.  Here it is a list of events -- chunks, empty
+   chunks, Pending tokens, EOF -- and the primitive reads go through poll_read as tokio / rw_ext.rs
+   write them (read_exact, read_varint_async byte by byte, both paths of read_exact_to_vec with any
+   growth policy [step]).  For EVERY event list whose chunks concatenate to l: each primitive read
+   returns what the byte-level read of Async.v returns on l (value, error, panic), and the events
+   left in place deliver exactly the unread bytes (never reads past the value).  [ev_eq o1 o2]:
+   o1 = Ok (x, s') -> o2 = Ok (x, abs s'), same Err, same Panic.  Every reader of Async.v is a
+   bind-composition of these primitives and pure steps; the generated decoders are covered by
+   fam/gen's C12_gen_schedule_free_partial over the same stream definitions. *)
+From PV Require Import Thrift.AsyncEv Proofs.AsyncEvP.
+Theorem C12_schedule_free : forall es l rcx step,
+  bytes_of es = l ->
+  (forall n, ev_eq (e_take n (mkE es rcx)) (a_take n (mkS l rcx))) /\
+  (forall m, ev_eq (e_varint m (mkE es rcx)) (a_varint m (mkS l rcx))) /\
+  (forall p, ev_eq (e_i16 p (mkE es rcx)) (a_i16 p (mkS l rcx))) /\
+  (forall p, ev_eq (e_i32 p (mkE es rcx)) (a_i32 p (mkS l rcx))) /\
+  (forall p, ev_eq (e_i64 p (mkE es rcx)) (a_i64 p (mkS l rcx))) /\
+  (forall p, ev_eq (e_double p (mkE es rcx)) (a_double p (mkS l rcx))) /\
+  (forall p, ev_eq (e_bytes step p (mkE es rcx)) (a_bytes p (mkS l rcx))).
+Proof. exact schedule_free_prims. Qed.
+Print Assumptions C12_schedule_free.
